@@ -68,12 +68,12 @@ PROPS["C06"] = dict(
     level="proof",
     runner="C06",
     model_files=["Base.v", "Assets.v", "Select.v", "Tir.v", "Reduce.v", "Walk.v"],
-    proof_files=["Assets_proofs.v", "Tir_proofs.v", "Reduce_proofs.v", "Reduce_inputs.v", "Reduce_closed.v"],
+    proof_files=["Assets_proofs.v", "Tir_proofs.v", "Reduce_proofs.v", "Reduce_inputs.v", "Reduce_queries.v", "Reduce_closed.v"],
     check_files=["C06_check.v"],
-    theorems=["C06_constant_closed", "C06_params_complete", "C06_params_sound", "C06_apply_args_closes", "C06_apply_inputs_closes",
+    theorems=["C06_constant_closed", "C06_params_complete", "C06_params_sound", "C06_queries_complete", "C06_apply_args_closes", "C06_apply_inputs_closes",
               "C06_apply_fees_closes", "C06_missing_arg_refused", "C06_all_args_accepted", "C06_reduce_keeps_closed", "C06_tx_reduce_keeps_closed"],
     partial=["preservation of closedness by reduce is a theorem for expressions and whole transactions (C06_reduce_keeps_closed, C06_tx_reduce_keeps_closed) under the hypothesis that the datums of resolved UTxOs are plain data; it is also evaluated per case on the implementation's output (clause 103)",
-             "queries_complete (top-level queries reported) is checked per case (clause 102)"],
+             "queries_complete is a theorem for templates whose queries do not contain queries (C06_queries_complete); it is also evaluated per case (clause 102)"],
     trusted_base=TIR_TB,
     assumptions=["Param::Set payloads are closed (sets_closed): true of lowered templates and of what apply_* inserts"],
     keep_ids=lambda ids: [x for x in ids if x < 200],
@@ -227,8 +227,8 @@ PROPS["C08"] = dict(
                  121: "a multi-UTxO script input gets a single redeemer", 122: "two mint/burn blocks on one policy with different redeemers collapse to one"},
 )
 PROPS["C10"] = dict(
-    level="translation_validation", runner="C10", model_files=COMPILE_MODEL, proof_files=["Compile_proofs.v"], check_files=["Compile_check.v"],
-    theorems=["C10_hash_fields_presence", "C10_no_empty_multiasset"],
+    level="translation_validation", runner="C10", model_files=COMPILE_MODEL, proof_files=["Compile_proofs.v", "Compile_reds.v"], check_files=["Compile_check.v"],
+    theorems=["C10_hash_fields_presence", "C10_no_empty_multiasset", "C10_redeemers_strictly_sorted", "C10_redeemer_keys_distinct"],
     partial=["digests, decoder acceptance and byte identity are checked on every emitted payload (clauses 311-316), they are statements about pallas / blake2b",
              "cross-process byte identity (body input order of a multi-UTxO block is hash-set order) is not exercised by the quick tier"],
     trusted_base=COMPILE_TB + ["pallas' decoder and hasher recompute the digests the check compares with"],
